@@ -103,8 +103,9 @@ CoreStanzas == {<<"message", "absent", "victimFull">>, <<"iq", "absent", "domain
 \* in another case, a trailing slash, the own full JID as a proper prefix, the served domain only,
 \* the own localpart at a domain that starts like the served one): never legitimate
 NearOwnFroms == {"ownOtherRes", "ownSibling", "ownCase", "ownSlash", "ownPrefix", "ownDomain", "ownLookalike"}
-MidStanzas  == ({"message", "iq"} \X {"absent", "own", "victim"} \X {"victimFull", "domain"})
-               \cup ({"message"} \X NearOwnFroms \X {"victimFull"})
+\* (the near-own from classes are toured against every identity state by ServerGenTourF.cfg)
+MidStanzas  == ({"message"} \X {"absent", "own", "victim"} \X {"victimFull", "domain"})
+               \cup {<<"iq", "absent", "domain">>, <<"iq", "own", "victimFull">>, <<"message", "ownOtherRes", "victimFull">>}
 OneStanza   == {<<"message", "absent", "victimFull">>}
 NoStanzas   == {}
 \* exhaustive configuration: everything for the five basic classes, the near-own classes (which the
